@@ -1,8 +1,13 @@
 /-
 The statement-level IR of the size-limit functions (generated into Gen/Limits.lean by
 extract/limits.go) and its interpreter.  A function body is a list of steps executed in
-order; a guard whose left operand exceeds its right operand returns an error; effects
-(deliver, queue, send, register, clock increment) are recorded.
+order; a guard whose left operand exceeds its right operand returns an error.  Two kinds
+of side effects are recorded, in order, in the trace:
+  * CLOCK steps — Increment / Witness of one of the node's Lamport clocks (also when the
+    call sits inside the message literal).  Advancing the node's own clock is not
+    something property C33 forbids for a rejected event;
+  * OBSERVABLE effects — local delivery (handleUserEvent / handleQuery), QueueBroadcast,
+    registerQueryResponse, SendToAddress, relay.
 -/
 namespace SerfModel.LimitSteps
 
@@ -11,33 +16,79 @@ inductive Step where
   | guard (lhs rhs : String)
   /-- `if err := call; err != nil { return err }` -/
   | check (call : String)
-  /-- no observable effect -/
+  /-- no side effect -/
   | pure (what : String)
-  /-- delivers / queues / sends / registers / advances a clock -/
+  /-- a Lamport clock step (`what` = "<clock>.<method>"), `stmt` = the statement text -/
+  | clock (what : String) (stmt : String)
+  /-- delivers / queues / sends / registers -/
   | effect (what : String) (args : String)
   | ret
   deriving DecidableEq, Repr
 
-/-- result of running a body: `ok = false` when a guard (or failing check) returned an
-error; `effects` = the effects performed before returning, in order -/
-structure Outcome where
-  ok : Bool
-  effects : List String
+inductive Ev where
+  | clock (what : String)
+  | effect (what : String)
   deriving DecidableEq, Repr
 
-/-- `env` gives the numeric value of guard operands; `checks` says whether a `check`
+/-- result of running a body: `ok = false` when a guard (or failing check) returned an
+error; `trace` = the clock steps and observable effects performed before returning, in order -/
+structure Outcome where
+  ok : Bool
+  trace : List Ev
+  deriving DecidableEq, Repr
+
+/-- the observable effects of a trace, in order -/
+def observable : List Ev → List String
+  | [] => []
+  | .effect w :: r => w :: observable r
+  | .clock _ :: r => observable r
+
+def clocks : List Ev → List String
+  | [] => []
+  | .clock w :: r => w :: clocks r
+  | .effect _ :: r => clocks r
+
+def Outcome.effects (o : Outcome) : List String := observable o.trace
+
+/-- `env` gives the numeric value of guard operands; `checkFails` says whether a `check`
 call fails. -/
-def run (env : String → Nat) (checkFails : String → Bool) : List Step → List String → Outcome
+def run (env : String → Nat) (checkFails : String → Bool) : List Step → List Ev → Outcome
   | [], acc => ⟨true, acc.reverse⟩
   | .guard l r :: rest, acc => if env l > env r then ⟨false, acc.reverse⟩ else run env checkFails rest acc
   | .check c :: rest, acc => if checkFails c then ⟨false, acc.reverse⟩ else run env checkFails rest acc
   | .pure _ :: rest, acc => run env checkFails rest acc
-  | .effect w _ :: rest, acc => run env checkFails rest (w :: acc)
+  | .clock w _ :: rest, acc => run env checkFails rest (.clock w :: acc)
+  | .effect w _ :: rest, acc => run env checkFails rest (.effect w :: acc)
   | .ret :: _, acc => ⟨true, acc.reverse⟩
 
 def guards : List Step → List (String × String)
   | [] => []
   | .guard l r :: rest => (l, r) :: guards rest
   | _ :: rest => guards rest
+
+def isGate : Step → Bool
+  | .guard _ _ => true
+  | .check _ => true
+  | _ => false
+
+def isEffect : Step → Bool
+  | .effect _ _ => true
+  | _ => false
+
+/-- every observable effect comes after every guard/check: once an effect has been
+performed no size test can still reject -/
+def effectsAfterGates : List Step → Bool
+  | [] => true
+  | s :: rest => (if isEffect s then !(rest.any isGate) else true) && effectsAfterGates rest
+
+/-- the kinds of side-effecting steps in order (guards as "guard", checks as "check") — the
+skeleton the `decide` obligations pin down -/
+def skeleton : List Step → List String
+  | [] => []
+  | .guard _ _ :: r => "guard" :: skeleton r
+  | .check _ :: r => "check" :: skeleton r
+  | .clock w _ :: r => ("clock:" ++ w) :: skeleton r
+  | .effect w _ :: r => ("effect:" ++ w) :: skeleton r
+  | _ :: r => skeleton r
 
 end SerfModel.LimitSteps
